@@ -187,7 +187,27 @@ class ConcDomain(Domain):
         for f in c["fields"]:
             if f.get("init") is not None:
                 fr = Frame({"qn": cls + "::<member initialiser>", "params": [], "ret": ""}, o)
-                o.f[f["name"]].set(self.copy_value(self.interp.rvalue(f["init"], fr), f["t"]))
+                v = self.interp.rvalue(f["init"], fr)
+                if self.fill_member_array(o.f[f["name"]], v, f["init"], fr):
+                    continue
+                o.f[f["name"]].set(self.copy_value(v, f["t"]))
+
+    def fill_member_array(self, cell, v, e, fr):
+        """`double a[2] = {0.0, 0.0};` / `int a[3] = {...}` as a member initialiser: the brace list fills the member array
+        (missing elements are zero); True if handled"""
+        cur = cell.v if hasattr(cell, "v") else None
+        if not (isinstance(cur, Arr) and cur.length):      # std::vector / Vector members are still empty at this point
+            return False
+        if not (isinstance(v, list) or (isinstance(v, Arr) and v is not cur and v.name in ("initlist", "array"))):
+            return False
+        vals = v if isinstance(v, list) else [v.ints.get(i, 0) for i in range(v.length or 0)]
+        for i in range(cur.length):
+            x = vals[i] if i < len(vals) else 0
+            if cur.elem == "int":
+                cur.ints[i] = x
+            elif hasattr(cur, "sym"):
+                cur.sym[i] = self.cast(x, "double", e, fr) if isinstance(x, (int, bool)) else x
+        return True
 
     def field_type(self, obj, name):
         def look(cls):
